@@ -396,7 +396,7 @@ fn obs(w: &World, s: &Snap, x: &Exec) -> Vec<String> {
 }
 
 // ---------- monitor: the clauses of C14 evaluated on the implementation's own states and traces ----------
-fn monitor(w: &World, op: &MOp, epoch: i64, pre: &Snap, post: &Snap, x: &Exec) -> Vec<(String, String)> {
+fn monitor(w: &World, op: &MOp, epoch: i64, pre: &Snap, post: &Snap, x: &Exec, padded: bool) -> Vec<(String, String)> {
     let mut bad: Vec<(String, String)> = vec![];
     let mut fail = |c: &str, m: String| bad.push((c.to_string(), m));
     // the table always sums to locked_funds, is sorted, has no negative entry
@@ -408,7 +408,9 @@ fn monitor(w: &World, op: &MOp, epoch: i64, pre: &Snap, post: &Snap, x: &Exec) -
     }
     if x.code != 0 {
         if x.upt_failed {
-            fail("F1-pledge-total-negative", format!("power actor rejected UpdatePledgeTotal with {} -> message failed with {}", x.upt, x.code));
+            // known finding F1 only explains this on a network whose pledge total was NOT padded
+            let class = if padded { "pledge-update-rejected-on-padded-network" } else { "F1-pledge-total-negative" };
+            fail(class, format!("power actor rejected UpdatePledgeTotal with {} -> message failed with {}", x.upt, x.code));
         }
         if post.bal != pre.bal || post.locked != pre.locked || post.fee_debt != pre.fee_debt || post.table != pre.table
             || post.used != pre.used || post.benef != pre.benef || post.pcd != pre.pcd || post.ip != pre.ip {
@@ -618,7 +620,7 @@ fn run_case(pc: &MCase, stats: &mut Stats, genr: Option<(&mut Prng, usize)>) -> 
         let post = snapshot(&w);
         stats.op(kind(&op), x.code);
         if x.code == 0 { acc = true } else { rej = true }
-        let bad = monitor(&w, &op, epoch, &snap, &post, &x);
+        let bad = monitor(&w, &op, epoch, &snap, &post, &x, pc.pad);
         ops_done.push(op.clone());
         for (class, what) in bad {
             if class == "F1-pledge-total-negative" {
